@@ -303,7 +303,7 @@ func (e *Engine) rangeCallSites(fn *ssa.Function) []token.Pos {
 				} else if callee, ok := cc.Value.(*ssa.Function); ok {
 					name = e.contractKey(callee)
 				}
-				if c, ok := e.cs.Funcs[name]; ok && c.Mode == "rangeloop" {
+				if c, ok := e.cs.Funcs[name]; ok && (c.Mode == "rangeloop" || c.Mode == "seqloop") {
 					out = append(out, in.Pos())
 				}
 			}
@@ -451,4 +451,145 @@ func sigOf(v Val) *types.Signature {
 	}
 	s, _ := v.T.Underlying().(*types.Signature)
 	return s
+}
+
+// seqLoop: the spec loop standing for a call of a walker with a concrete callback: for i = 0 .. len-1, in
+// order, call f(at(i)). `opt seqlen` / `opt seqat` of the walker's contract give the sequence (proved for the
+// walker itself through its call-log postcondition); the invariant comes from `rangecall N` of the caller.
+func (e *Engine) seqLoop(st *State, fr *Frame, c *Contract, key string, vars map[string]Val, args []Val, pos string, k callCont) {
+	if len(c.Extra["seqlen"]) == 0 || len(c.Extra["seqat"]) == 0 {
+		panic(unsupported("%s: mode seqloop needs opt seqlen and opt seqat", key))
+	}
+	lenX, err := ParseSpecExpr(c.Extra["seqlen"][0])
+	if err != nil {
+		panic(unsupported("seqlen: %v", err))
+	}
+	atX, err := ParseSpecExpr(c.Extra["seqat"][0])
+	if err != nil {
+		panic(unsupported("seqat: %v", err))
+	}
+	fnv := args[len(args)-1]
+	sites := e.rangeCallSites(bodyOf(e.root))
+	ord := -1
+	for i, p := range sites {
+		if fmt.Sprintf("L%d", e.prog.Fset.Position(p).Line) == pos {
+			ord = i
+		}
+	}
+	var ls *LoopSpec
+	if e.rootC != nil && e.rootC.RangeCalls != nil {
+		ls = e.rootC.RangeCalls[ord]
+		if ls == nil && ord == -1 && len(e.rootC.RangeCalls) == 1 {
+			// the call sits in a synthetic wrapper (a bound method value): the function's only rangecall
+			for o, l := range e.rootC.RangeCalls {
+				ord, ls = o, l
+			}
+		}
+	}
+	if ls == nil {
+		panic(unsupported("walker call %d (%s at %s) of %s has no `rangecall %d invariant`", ord, key, pos, e.funcName, ord))
+	}
+	calleeEnv := func(s *State) *SpecEnv {
+		return &SpecEnv{e: e, st: s, old: s, fr: fr, vars: vars, env: fr.env, pkg: c.Pkg}
+	}
+	// requires of the walker
+	for i, r := range c.Requires {
+		g := e.evalBool(r.E, calleeEnv(st))
+		e.obligation(st, "call-pre", fmt.Sprintf("%s.%d@%s", key, i, pos), g, r.Src)
+		st.Assume(g)
+	}
+	it := &specIter{ord: ord, count: IntLit(0), visited: Term{"((as const (Array Int Bool)) false)", ArrSort(SInt, SBool)}}
+	depthIdx := len(st.specIters)
+	st.specIters = append(st.specIters[:depthIdx:depthIdx], it)
+	invEnv := func(s *State) *SpecEnv {
+		se := e.specEnv(s, e.entry, e.rootFr)
+		se.preferNames = true
+		se.frNames = fr
+		return se
+	}
+	assertInv := func(s *State, kind string) {
+		for _, o := range ls.Owns {
+			pv := e.evalSpec(o.E, invEnv(s))
+			if od := e.isOwnedPtr(pv.T); od != nil {
+				e.closeChunk(s, od, pv.L[0], pv.T.Underlying().(*types.Pointer).Elem(), kind+" "+o.Src)
+			}
+		}
+		for i, cl := range ls.Inv {
+			lab := cl.Label
+			if lab == "" {
+				lab = fmt.Sprintf("rangecall%d.%d", ord, i)
+			} else {
+				lab = fmt.Sprintf("rangecall%d.%s", ord, lab)
+			}
+			e.obligation(s, kind, lab, e.evalBool(cl.E, invEnv(s)), cl.Src)
+		}
+		e.checkFrame(s, kind+"-frame")
+	}
+	for _, h := range ls.Hints {
+		st.Assume(e.evalBool(h.E, invEnv(st)))
+	}
+	assertInv(st, "inv-entry")
+	// the loop's own structures are given up at the loop head and re-acquired below
+	for _, o := range ls.Owns {
+		pv := e.evalSpec(o.E, invEnv(st))
+		if od := e.isOwnedPtr(pv.T); od != nil {
+			e.consumeBelow(st, od, pv.L[0], pv.T.Underlying().(*types.Pointer).Elem(), 0)
+		}
+	}
+	w := &writeSet{cells: map[*ssa.Alloc]bool{}, sliceElems: map[string]types.Type{}, objRoots: map[string]types.Type{}, visited: map[*ssa.Function]bool{}}
+	if fnv.Fn != nil && fnv.Fn.Fn != nil {
+		cfr := &Frame{fn: bodyOf(fnv.Fn.Fn), free: fnv.Fn.Bindings, env: fnv.Fn.Env}
+		e.scanFuncWrites(cfr, fnv.Fn.Fn, w, fnv.Fn.Env)
+		// a bound method value: its receiver cell is written through the method's assigns clause
+		for _, b := range fnv.Fn.Bindings {
+			if b.P != nil && b.P.Kind == LocCell {
+				w.freeCells = append(w.freeCells, b)
+			}
+		}
+	} else {
+		w.anyCall = true
+	}
+	e.havocWriteSet(st, fr, w)
+	nit := *it
+	nit.count = e.ctx.Fresh("sniter", SInt)
+	st.Assume(Le(IntLit(0), nit.count))
+	st.specIters = append(st.specIters[:depthIdx:depthIdx], &nit)
+	for _, o := range ls.Owns {
+		pv := e.evalSpec(o.E, invEnv(st))
+		if od := e.isOwnedPtr(pv.T); od != nil {
+			e.addTree(st, od, pv.L[0], e.freshTree(st, od, "loopowned"))
+		}
+	}
+	for _, cl := range ls.Inv {
+		st.Assume(e.evalBool(cl.E, invEnv(st)))
+	}
+	for _, h := range ls.Hints {
+		st.Assume(e.evalBool(h.E, invEnv(st)))
+	}
+	st.Assume(e.frameFormula(st))
+	st.path = append(st.path, fmt.Sprintf("S%d.", ord))
+	n := e.evalSpec(lenX, calleeEnv(st)).L[0]
+	st.Assume(Le(nit.count, n))
+	pop := func(s *State) { s.specIters = s.specIters[:depthIdx:depthIdx] }
+	{
+		s2 := st.Clone()
+		fr2 := fr.cloneForPath()
+		s2.Assume(Eq(nit.count, n))
+		s2.path = append(s2.path, "x")
+		s2.lastIter = &nit
+		pop(s2)
+		k(s2, fr2, Val{T: types.NewTuple()})
+	}
+	{
+		st.Assume(Lt(nit.count, n))
+		elem := e.evalSpec(atX, calleeEnv(st).with("i", mkInt(nit.count)))
+		cur := nit
+		cur.count = Add(nit.count, IntLit(1))
+		st.specIters = append(st.specIters[:depthIdx:depthIdx], &cur)
+		st.path = append(st.path, "n")
+		e.callValueT(st, fr, nil, fnv, []Val{elem}, types.NewTuple(), pos, func(s3 *State, fr3 *Frame, _ Val) {
+			assertInv(s3, "inv-preserve")
+			e.paths++
+		})
+	}
 }
